@@ -42,3 +42,58 @@ def one_history(R, rounds, key, nonce, aad, data, mode, tag=None):
 def describe(r, v):
     e = r["ev"][v[1] - 1]
     return {"cls": r["cls"], "op": e["op"], "rounds": r["rounds"], "keylen": len(r["key"])}
+
+
+def crafted_cases(R, per_class, label):
+    """AEAD inputs whose ciphertext drives the Poly1305 limb code into its rare carry / select classes (polycraft.GENERIC_CLASSES) under the one-time
+    key the (key, nonce) pair gives.  The one-time key and the keystream are read off the crate's own ChaCha (input selection only: every result is
+    judged by TLC, and TLC confirms the class each crafted input reaches).  Returns [(rounds, key, nonce, aad, pt, class, one-time key, MAC input)]."""
+    from props import polycraft
+    plans = []
+    for cls in polycraft.GENERIC_CLASSES:
+        for j in range(per_class):
+            rounds = 20 if j % 3 != 2 else (8, 12)[(j // 3) % 2]
+            kl = 32 if (j + len(plans)) % 2 == 0 else 16
+            tag = "%s/%s/%d" % (label, cls, j)
+            plans.append((cls, rounds, vlib.prng_bytes(R.seed, "ackey/" + tag, kl), vlib.prng_bytes(R.seed, "acnonce/" + tag, 12),
+                          vlib.prng_bytes(R.seed, "acaad/" + tag, (0, 5, 16, 33)[(j + len(cls)) % 4]), (0, 16, 3)[j % 3]))
+    hs = [{"id": "ks%d" % i, "cls": "stream", "variant": "ietf", "rounds": rounds, "key": key, "nonce": nonce,
+           "ev": [{"op": "new"}, {"op": "process", "x": 1, "data": [0] * (64 + 64)}]} for i, (cls, rounds, key, nonce, aad, lead) in enumerate(plans)]
+    recs = R.drive_on(hs, "rel", "craft." + label)
+    out = []
+    for (cls, rounds, key, nonce, aad, lead), r in zip(plans, recs):
+        o = r["ev"][1]["out"]
+        if o["k"] != "v" or len(o["v"]) != 128:
+            continue
+        otk, ks = o["v"][:32], o["v"][64:]
+        # ciphertext = lead bytes (0, 16 or 3: the last makes the crafted blocks straddle ... no: keeps them block-aligned only when lead % 16 == 0)
+        lead = lead if lead % 16 == 0 else 0
+        leadct = vlib.prng_bytes(R.seed, "aclead/%s" % cls, lead)
+        n = lead + 32
+        lens = list(len(aad).to_bytes(8, "little")) + list(n.to_bytes(8, "little"))
+        prefix = list(aad) + [0] * ((16 - len(aad) % 16) % 16) + leadct
+        blocks = polycraft.craft_generic(cls, otk, prefix, lens, R.rng)
+        if blocks is None:
+            continue
+        ct = leadct + blocks
+        pt = [c ^ k for c, k in zip(ct, ks)]
+        out.append((rounds, key, nonce, aad, pt, cls, otk, prefix + blocks + lens))
+    return out
+
+
+def confirm_crafted(R, crafted):
+    """TLC evaluates the transcribed limb code (Poly1305Donna.tla) on the MAC input of every crafted case: it must refine RFC 8439 there, and the classes
+    must really be reached (vacuity guard; skipped when the run already has violations, e.g. because the cipher the inputs were derived from is wrong)"""
+    if not crafted or R.collect:
+        return
+    pool = [{"id": R.next_id(), "ev": [{"op": "mac", "key": otk, "data": md, "out": {"k": "v", "v": []}}]} for (_, _, _, _, _, _, otk, md) in crafted]
+    extras = R.model_eval("Poly1305Donna", pool, "donna", cost=lambda r: 1 + len(r["ev"][0]["data"]) / 16.0)
+    cov = {}
+    for v in extras:
+        if v[0] == "COV":
+            for c in v[2]:
+                cov[c] = cov.get(c, 0) + 1
+    R.extra["donna_branch_classes_via_aead"] = cov
+    missing = [c for c in ("fin_c1", "fin_c2", "fin_c3", "fin_wrap", "fin_h0_carry", "fin_h0_carry_h1_odd", "sel_ge_p", "sel_lt_p", "pad_carry_into_saturated") if not cov.get(c)]
+    if missing and not R.violations:
+        raise vlib.ToolError("vacuous run: no crafted AEAD input reaches the limb-code branches %s" % missing)
